@@ -40,6 +40,7 @@ var c14Conds = []struct{ name, cond string }{
 	// a path that is healthy until an action sets the pointer on it to nil
 	{"pointer-path-healthy-until-nilled", "F.PArr[0].V == 5 && F.I < 3"},
 	{"pointer-field-path-healthy-until-nilled", "F.PArr[0].Q.V == 6 && F.I < 3"},
+	{"fact-pointer-field-healthy-until-nilled", "H.P.V == 7 && F.I < 3"},
 	// maps and slices that were never made, a JSON null
 	{"nil-map-read", "F.MK[1] == 0"},
 	{"nil-slice-index", "F.SArr[0] == \"\""},
@@ -81,6 +82,8 @@ var c14Acts = []struct {
 	{"act-nils-pointer", []string{"F.I = F.I + 1", "F.PArr[0] = F.P"}},
 	{"act-nils-pointer-field-then-reads", []string{"F.I = F.I + 1", "F.PArr[0].Q = F.P", "F.I2 = F.PArr[0].Q.V", "F.I2 = 25"}},
 	{"act-nils-pointer-field", []string{"F.I = F.I + 1", "F.PArr[0].Q = F.P"}},
+	{"act-nils-fact-pointer-field-then-reads", []string{"F.I = F.I + 1", "H.P = F.P", "F.I2 = H.P.V", "F.I2 = 26"}},
+	{"act-nils-fact-pointer-field", []string{"F.I = F.I + 1", "H.P = F.P"}},
 	{"act-nil-map-write", []string{"F.I = F.I + 1", "F.MK[1] = 2", "F.I2 = 15"}},
 	{"act-nil-slice-write", []string{"F.I = F.I + 1", `F.SArr[0] = "x"`, "F.I2 = 16"}},
 	{"act-json-null-descent-write", []string{"F.I = F.I + 1", "J.nul.x = 1", "F.I2 = 17"}},
@@ -112,6 +115,9 @@ func c14World(faultAt, kind int) func() *ref.World {
 		f.H().FaultAt = faultAt
 		f.H().FaultKind = kind
 		w.Objs["F"] = f
+		h := facts.New()
+		h.P = &facts.Sub{V: 7} // a pointer field of a fact itself: healthy until an action sets it to nil
+		w.Objs["H"] = h
 		w.JSON["J"] = map[string]interface{}{"n": 1.0, "a": []interface{}{1.0, 2.0}, "nul": nil}
 		return w
 	}
